@@ -183,10 +183,14 @@ pub struct P2Case {
     pub suffix: Vec<(u64, F)>,
     /// how many items of the prefix are fed before an intermediate reset
     pub mid_reset: u16,
+    /// additional items of negligible weight streamed before the reset (per-item counters advance, nothing else happens)
+    #[serde(default)]
+    pub filler: u32,
 }
 
 fn p2_strategy(max_m: usize) -> impl Strategy<Value = P2Case> {
-    (crate::gen::m_strategy(1, max_m), any::<bool>(), weighted_set(0, 60, true).prop_map(|v| v), weighted_set(1, 60, true), any::<u16>()).prop_map(|(m, wy, prefix, suffix, mid_reset)| P2Case { m, wy, prefix, suffix, mid_reset })
+    (crate::gen::m_strategy(1, max_m), any::<bool>(), weighted_set(0, 60, true).prop_map(|v| v), weighted_set(1, 60, true), any::<u16>(), prop_oneof![40 => Just(0u32), 1 => (0u32..70).prop_map(|d| 65_540 - d), 1 => (0u32..70).prop_map(|d| 131_076 - d)])
+        .prop_map(|(m, wy, prefix, suffix, mid_reset, filler)| P2Case { m: if filler > 0 { 2 + m % 30 } else { m }, wy, prefix, suffix, mid_reset, filler })
 }
 
 fn p2_run<H: std::hash::Hasher + Default>(c: &P2Case) -> Eval {
@@ -198,6 +202,19 @@ fn p2_run<H: std::hash::Hasher + Default>(c: &P2Case) -> Eval {
         }
         used.hash_item(*d, w.0);
     }
+    // a long run of items whose weight is negligible against the prefix (they are pruned at once), also split over two resets
+    if c.filler > 0 {
+        let wmax = c.prefix.iter().map(|p| p.1 .0).fold(1.0, f64::max);
+        for i in 0..c.filler as u64 {
+            if i == (c.filler / 2) as u64 {
+                used.reset();
+                for (d, w) in c.prefix.iter() {
+                    used.hash_item(*d, w.0);
+                }
+            }
+            used.hash_item(0xF111_0000_0000 + i, wmax * 1e-30);
+        }
+    }
     used.reset();
     let mut fresh = ProbMinHash2::<u64, H>::new(c.m, PLACEHOLDER);
     ensure!(used.get_signature() == fresh.get_signature() && bits(&used.verif_registers()) == bits(&fresh.verif_registers()), "ProbMinHash2: right after reset the signature / registers differ from a new instance");
@@ -207,7 +224,7 @@ fn p2_run<H: std::hash::Hasher + Default>(c: &P2Case) -> Eval {
         ensure!(used.get_signature() == fresh.get_signature(), "ProbMinHash2 m={}: after reset and {} items the signature differs from a new instance: {:?} vs {:?}", c.m, i + 1, used.get_signature(), fresh.get_signature());
         ensure!(bits(&used.verif_registers()) == bits(&fresh.verif_registers()), "ProbMinHash2 m={}: after reset and {} items the registers differ from a new instance", c.m, i + 1);
     }
-    Ok(Report::new(!c.prefix.is_empty()).class("ProbMinHash2").class_if(c.prefix.len() >= c.m, "prefix-n>=m"))
+    Ok(Report::new(!c.prefix.is_empty()).class("ProbMinHash2").class_if(c.prefix.len() >= c.m, "prefix-n>=m").class_if(c.filler > 0, "prefix-with>65000-negligible-items"))
 }
 fn bits(v: &[f64]) -> Vec<u64> {
     v.iter().map(|x| x.to_bits()).collect()
